@@ -32,6 +32,9 @@ def segments(pattern):
     return out
 
 
+LOOKAHEAD = 4
+
+
 def reference_states(cfg, n, ks=None):
     ref = {}
     for k in (range(1, n + 1) if ks is None else ks):
@@ -53,6 +56,7 @@ def run_path(cfg, pattern, ref):
     """Returns [(key, what)] and the set of (k, state digest) reached."""
     v = []
     reached = set()
+    hidden = []
     use_folder = cfg.get("use_folder", True)
     manual = cfg.get("manual_ckpt", False)   # no saving folder: checkpoints are written by hand, only where the run is cut
     with C.scratch() as tmp:
@@ -70,7 +74,11 @@ def run_path(cfg, pattern, ref):
             k += seg
             st = C.state(cal)
             reached.add((k, hash(st)))
-            if st != ref[k][0]:
+            if st != ref[k][0] and C.history_canon(cal) == ref[k][1]:
+                # the HISTORY is the uninterrupted one, only hidden state differs: the property speaks about the history, so the
+                # verdict is left to what the histories do from here on (this path and, at its end, LOOKAHEAD further batches)
+                hidden.append((k, diff(ref[k][0], st)[:2]))
+            elif st != ref[k][0]:
                 nxt = cfg["lineup"][k % len(cfg["lineup"])]["cls"] if cfg.get("scheduler", "rr") == "rr" else "rl"
                 d = diff(ref[k][0], st)
                 comp = d[0].split(":")[0] if d else "?"
@@ -92,10 +100,31 @@ def run_path(cfg, pattern, ref):
                 if manual:
                     cal.saving_folder = None
                 st2 = C.state(cal)
-                if st2 != ref[k][0]:
+                if st2 != ref[k][0] and C.history_canon(cal) == ref[k][1]:
+                    hidden.append((k, diff(ref[k][0], st2)[:2]))
+                elif st2 != ref[k][0]:
                     d = diff(ref[k][0], st2)
                     v.append(("restored-state-differs", f"pattern {''.join(pattern)}: state restored after batch {k} differs from the uninterrupted run: {d[:3]}"))
                     return v, reached
+        if hidden and not v:
+            # hidden state differed somewhere although every history so far was right: do the futures differ?
+            n = k
+            with C.scratch() as tmp2:
+                twin = C.build(dict(cfg, saving_folder=str(tmp2 / "ck")) if use_folder and not manual else cfg)
+                try:
+                    with quiet():
+                        twin.calibrate(n + LOOKAHEAD)
+                        cal.calibrate(LOOKAHEAD)
+                    same = C.history_canon(cal) == C.history_canon(twin)
+                except Exception as e:  # noqa: BLE001
+                    same = False
+                    hidden.append(("continuing raised", f"{type(e).__name__}: {e}"))
+            if not same:
+                k0, d0 = hidden[0]
+                v.append((f"diverged-after-{'+'.join(sorted(set(pattern) - {'n'})) or 'plain'}",
+                          f"pattern {''.join(pattern)}: hidden state differs from the uninterrupted run after batch {k0} ({d0}) and the histories part within {LOOKAHEAD} further batches"))
+            else:
+                reached.add(("hidden-state-differs-history-equal", k))
     return v, reached
 
 
@@ -124,7 +153,10 @@ def run_cell(cell):
         res["transitions"] += n
         if set(pattern) - {"n"}:
             res["nontrivial"] += 1
-        allr |= reached
+        hid = {r for r in reached if r[0] == "hidden-state-differs-history-equal"}
+        if hid:
+            res["stats"]["paths_with_hidden_state_difference_but_equal_histories"] = res["stats"].get("paths_with_hidden_state_difference_but_equal_histories", 0) + 1
+        allr |= reached - hid
         for key, what in vs:
             lineup = "+".join(s["cls"] for s in cfg["lineup"])
             if sum(1 for x in res["violations"] if x["key"] == key) < 1:
